@@ -177,6 +177,9 @@ func runC27(c *Ctx) {
 		fail, n := f.ErrEdgesOf(send, true)
 		_ = fail
 		c.Check(n == 1, "send-error-tested", "the result of SendProto is tested", c.P.Pos(lit.Pos()), "")
+		sends := f.Find(send)
+		ws := f.MayReach(sends, nil, send)
+		c.Check(len(sends) == 1 && ws == nil, "send-at-most-once", "a batch is put on the wire at most once per flush: a transport error after the request left is not retried (the peer may already have delivered the batch; a resend duplicates and reorders)", c.P.Pos(lit.Pos()), "the batch can be sent twice: "+f.describe(ws))
 		// handler receives a copy (argument is not the batch variable itself)
 		okCopy := true
 		for _, a := range hs {
